@@ -14,7 +14,7 @@ import ast
 import itertools
 
 from sa.cfg import cfg_of
-from sa.fold import Evaluator, Obj, Raised, Unfoldable
+from sa.fold import Evaluator, Obj, Raised, Rec, Unfoldable
 from sa.guards import decide_with, find_calls
 from sa.loader import AnalysisError, call_name, calls_in, kwarg, walk_local
 
@@ -298,7 +298,8 @@ def r4(repo, res):
     g = repo.func("genotype::genotype")
     res.analysed(g)
     gm = GenotypeModel(repo)
-    desc = dict(cn=[("A", 0.0)], majors={"A": [("A1", 0.0), ("A2", 0.0)]}, minors={"A1": [("A1a", 0.0)], "A2": [("A2a", 0.0)]})
+    # two refinements of one major candidate share the major diplotype; both are reported solutions
+    desc = dict(cn=[("A", 0.0)], majors={"A": [("A1", 0.0), ("A2", 0.0)]}, minors={"A1": [("A1a", 0.0), ("A1b", 0.05)], "A2": [("A2a", 0.0)]})
     cases = {"decomposition file": (Obj(name="out.aldy"), {}), "VCF file": (Obj(name="out.vcf"), {}), "simple file": (Obj(name="out.simple"), {}),
              "standard output": (Obj(name="<stdout>"), {}), "standard output, simple": (Obj(name="<stdout>"), {"is_simple": True}), "no output": (None, {})}
     for label, (out, extra) in cases.items():
@@ -311,18 +312,18 @@ def r4(repo, res):
         text = "".join(t for t, fl in printed if out is not None and fl is out)
         stray = [t for t, fl in printed if fl is not out or out is None]
         reported = [m.solution for m in list(v.values())[0]] if k == "return" and isinstance(v, dict) and v else None
-        if reported != ["A1a", "A2a"]:
-            res.ob("C12.R4", g, g, False, expected=f"{label}: two solutions reported", found=f"{k} {str(v)[:60]}", key=f"dispatch:{label}")
+        if reported != ["A1a", "A2a", "A1b"]:
+            res.ob("C12.R4", g, g, False, expected=f"{label}: three solutions reported", found=f"{k} {str(v)[:60]}", key=f"dispatch:{label}")
             continue
         if label in ("decomposition file", "standard output"):
-            ok = not wv and [(w[4], w[5].solution, w[6]) for w in wd] == [(1, "A1a", out), (2, "A2a", out)] and text.startswith("#c1\tc2\n") \
-                and text.count("#Solution") == 2 and [w[1] for w in wd] == ["SAMPLE", "SAMPLE"]
+            ok = not wv and [(w[4], w[5].solution, w[6]) for w in wd] == [(1, "A1a", out), (2, "A2a", out), (3, "A1b", out)] and text.startswith("#c1\tc2\n") \
+                and text.count("#Solution") == 3 and [w[1] for w in wd] == ["SAMPLE"] * 3
             exp = "column header once, then `#Solution i` and the decomposition of every reported solution, numbered from 1, into that file; no VCF"
         elif label == "VCF file":
             ok = not wd and len(wv) == 1 and [m.solution for m in wv[0][4]] == reported and wv[0][5] is out and wv[0][1] == "SAMPLE" and not text
             exp = "write_vcf once with the whole reported list and that file; no decomposition rows, no header"
         elif label in ("simple file", "standard output, simple"):
-            ok = not wd and not wv and text == "SAMPLE\tG\tM[A1a]\tL[A1a]\tM[A2a]\tL[A2a]\t\n".replace(" ", "")
+            ok = not wd and not wv and text == "SAMPLE\tG\tM[A1]\tL[A1a]\tM[A2]\tL[A2a]\tM[A1]\tL[A1b]\t\n"
             exp = "one line: sample, gene, then major and legacy minor diplotype of every reported solution, closed by a newline"
         else:
             ok = not wd and not wv and not printed
@@ -440,8 +441,8 @@ def r6(repo, res):
             t = self.total(m)
             return 100.0 * self[m] / t if t else 0
 
-    A1 = lambda: Obj(major="1", minor="1.002", added=[], missing=[])  # noqa
-    A3 = lambda: Obj(major="3", minor="3.001", added=[], missing=[])  # noqa
+    A1 = lambda: Rec(major="1", minor="1.002", added=[], missing=[])  # noqa  (value equality, like the dataclass of /repo)
+    A3 = lambda: Rec(major="3", minor="3.001", added=[], missing=[])  # noqa
     scenarios = [
         ("two different copies", [A1(), A3()],
          [["22", "151", "rs2", "T", "A", "1|0", "12", "*1,-", "*1.002,-"],
@@ -466,7 +467,7 @@ def r6(repo, res):
     params = [a.arg for a in f.args.args]
     # two solutions in one file: every column describes its own solution
     outm = []
-    two = [Obj(solution=[A1(), A3()], get_major_diplotype=lambda: "*1 / *3"), Obj(solution=[A3(), A3()], get_major_diplotype=lambda: "*3 / *3")]
+    two = [Obj(solution=[A1(), A3()], get_major_diplotype=lambda: "*1 / *3"), Obj(solution=[A3(), A3(), A1()], get_major_diplotype=lambda: "*3 / *3 + *1")]
     try:
         k, v = Evaluator({"sample": "S", "gene": gene, "minors": two, "f": "FILE", "version": "0", "coverage": Cov()},
                          funcs={"print": lambda *a, sep=" ", end="\n", file=None: outm.append(sep.join(str(x) for x in a)), "td": lambda t: t,
@@ -480,13 +481,13 @@ def r6(repo, res):
         if len(r) >= 11:
             fmt = r[8].split(":")
             cols.append([r[1]] + [tuple(dict(zip(fmt, c_.split(":"))).get(q) for q in ("GT", "MA", "MI")) for c_ in r[9:11]])
-    wantm = [["151", ("1|0", "*1,-", "*1.002,-"), ("0|0", "-,-", "-,-")],
-             ["251", ("0|1", "-,*3", "-,*3.001"), ("1|1", "*3,*3", "*3.001,*3.001")],
-             ["351", ("0|1", "-,*3", "-,*3.001"), ("1|1", "*3,*3", "*3.001,*3.001")]]
+    wantm = [["151", ("1|0", "*1,-", "*1.002,-"), ("0|0|1", "-,-,*1", "-,-,*1.002")],
+             ["251", ("0|1", "-,*3", "-,*3.001"), ("1|1|0", "*3,*3,-", "*3.001,*3.001,-")],
+             ["351", ("0|1", "-,*3", "-,*3.001"), ("1|1|0", "*3,*3,-", "*3.001,*3.001,-")]]
     headm = outm[0].splitlines()[-1].split("\t") if outm else []
     okm = k != "raise" and cols == wantm and len(headm) == 11 and headm[9].startswith("S:0:") and headm[10].startswith("S:1:")
     res.ob("C12.R6", f, f, okm,
-           expected="two solutions (known finding C12.R2 set aside: cells read as independent): column i carries the genotype, MA and MI of solution i's own copies",
+           expected="two solutions with two and three copies (known finding C12.R2 set aside: cells read as independent): column i carries the genotype, MA and MI of solution i's own copies",
            found="agrees" if okm else f"{cols}; header {headm[-2:]}",
            clause="the genotype of allele copy i at a variant is 1 exactly if that copy is reported to carry the variant", key="vcf-records:two-solutions")
     for label, sol, want in scenarios:
